@@ -13,7 +13,7 @@ def holder(dx, N):
     return math.pow(dx, 1.0 / N)
 
 
-def audit(xs, zs, N, r, rtol=1e-9, max_report=5):
+def audit(xs, zs, N, r, rtol=1e-9, max_report=5, fp_tol=False):
     """Audit a trial sequence (xs in evaluation order, zs the objective values).
 
     Returns dict with
@@ -66,6 +66,17 @@ def audit(xs, zs, N, r, rtol=1e-9, max_report=5):
         t = j - 1                                          # chosen interval [X[t], X[t+1]]
         Rmax = float(R.max())
         tol = rtol * max(1.0, abs(Rmax))
+        if fp_tol:
+            # deep runs: the characteristics themselves are of the order of the interval lengths (1e-13 and below), so the comparison is
+            # made relative to the magnitude of the terms the characteristic is computed from (their rounding is what limits it)
+            ib = int(R.argmax())
+            sc = 0.0
+            for q in (t, ib):
+                a_l = 0.0 if np.isnan(Z[q]) else abs(float(Z[q]))
+                a_r = 0.0 if np.isnan(Z[q + 1]) else abs(float(Z[q + 1]))
+                dzq = 0.0 if (np.isnan(Z[q]) or np.isnan(Z[q + 1])) else float(Z[q + 1] - Z[q])
+                sc = max(sc, 2.0 * float(D[q]) + dzq * dzq / (rm * rm * float(D[q])) + 4.0 * (a_l + a_r + 2.0 * abs(zstar)) / rm)
+            tol = min(tol, 1e-11 * sc)
         gap = Rmax - float(R[t])
         if gap > worst_gap:
             worst_gap = gap
